@@ -4,6 +4,7 @@ import (
 	"context"
 	"errors"
 	"fmt"
+	"math"
 	"testing"
 	"testing/synctest"
 	"time"
@@ -20,7 +21,7 @@ var theT *testing.T
 
 func TestMain(m *testing.M) { suite.Main(m) }
 
-const maxWait = time.Second
+const defaultMaxWait = time.Second
 
 type COp struct {
 	Op      string `json:"op"` // next | sleep | close | drain
@@ -38,6 +39,10 @@ type Plan struct {
 	EndErr   bool  `json:"enderr,omitempty"`
 	ErrKind  int   `json:"errkind,omitempty"` // 0 plain sentinel, 1 wraps context.Canceled, 2 wraps context.DeadlineExceeded
 	Deaf     bool  `json:"deaf,omitempty"` // the source ignores its context and never ends (it keeps answering)
+	// Huge: maxWait is the largest Duration ("never hand out an underfilled batch on time") instead of 1s
+	Huge bool `json:"huge,omitempty"`
+	// Scribble: the consumer, which owns every batch it was handed, appends to it and overwrites its spare capacity
+	Scribble bool `json:"scribble,omitempty"`
 	Consumer []COp `json:"consumer"`
 }
 
@@ -67,6 +72,8 @@ func genPlan(t *rapid.T) Plan {
 		}
 		p.Consumer = append(p.Consumer, o)
 	}
+	p.Huge = rapid.IntRange(0, 7).Draw(t, "huge") == 0
+	p.Scribble = rapid.Bool().Draw(t, "scribble")
 	p.Deaf = rapid.IntRange(0, 5).Draw(t, "deaf") == 0
 	if p.Deaf {
 		p.EndErr = false
@@ -113,6 +120,11 @@ func run(p Plan) (out vk.Outcome, verr error) {
 }
 
 func script(p Plan, out *vk.Outcome) error {
+	maxWait := defaultMaxWait
+	if p.Huge {
+		maxWait = time.Duration(math.MaxInt64)
+		out.Label("maxwait-never")
+	}
 	n := len(p.Gaps)
 	items := make([]int, n)
 	gaps := make([]time.Duration, n)
@@ -241,7 +253,7 @@ func script(p Plan, out *vk.Outcome) error {
 			timerBatch = true
 		}
 		// clause 4: not held back (zero-latency predicate, live context throughout)
-		if p.FullLat == 0 && (timeout == 0 || r.T.Sub(r.tc) < timeout) {
+		if p.FullLat == 0 && !p.Huge && (timeout == 0 || r.T.Sub(r.tc) < timeout) {
 			// arrival of the oldest item at the batcher: when the source handed it over, or - if the batcher was
 			// then still blocked handing the previous batch to the consumer - when that batch was taken
 			arrival := h
@@ -258,6 +270,14 @@ func script(p Plan, out *vk.Outcome) error {
 			}
 		}
 		lastDelivery = r.T
+		if p.Scribble {
+			// the batch now belongs to the consumer, spare capacity included
+			full := b[:cap(b)]
+			for i := range full {
+				full[i] = -7
+			}
+			_ = append(b, -7)
+		}
 		return nil
 	}
 
